@@ -496,9 +496,9 @@ fn main() {
     let check = Check::new("C25", "exploration");
     check.rule("1-4 queries, each a sequence of 2-3 distinct event types with 1-2 Kleene+ steps (A B+ C, A+ B, A B+ C+, ...), the others mostly sharing a Kleene type with the first; bursty streams (runs of one type) of <=12 events over A,B,C plus a noise type, one window. Four independent clauses: (direct_count) HamletAggregator flush value of the query alone = enumeration of all 2^n index subsequences matched against the pattern (cross-checked by an independent DP); (direct_sharing) value alone = value when registered together with the others; (engine_count) every TrendAggregateResult of `.trend_aggregate(c: count_trends())` = enumeration over the events seen so far, and the last report = the window's count; (engine_sharing) reports alone = reports when loaded with the other streams. non-trivial = >=1 trend (count clauses) / a non-zero value and a burst of >=2 events of a Kleene type that >=2 queries share (sharing clauses)");
     check.assume("trend semantics from docs/reference/trend-aggregation.md and the GRETA/Hamlet module docs (skip-till-any-match; E+ = non-empty in-order subset, 2^n - 1 for n events); patterns without predicates; all events inside one .within window; template construction as in hamlet::aggregator's own tests (add_sequence + add_kleene at the step's state)");
-    check.explore("direct_count", strat, 3_000, 50_000, judge_direct_count);
-    check.explore("direct_sharing", strat, 3_000, 50_000, judge_direct_sharing);
-    check.explore("engine_count", strat, 1_500, 25_000, judge_engine_count);
-    check.explore("engine_sharing", strat, 1_500, 25_000, judge_engine_sharing);
+    check.explore("direct_count", strat, 16_000, 300_000, judge_direct_count);
+    check.explore("direct_sharing", strat, 16_000, 300_000, judge_direct_sharing);
+    check.explore("engine_count", strat, 6_000, 100_000, judge_engine_count);
+    check.explore("engine_sharing", strat, 6_000, 100_000, judge_engine_sharing);
     check.finish();
 }
